@@ -233,6 +233,45 @@ def result_numbers(run: GameRun) -> Optional[List[Any]]:
 ZERO_TEST_BUDGET_S = 4.0  # per zero test; on the pinned tree the slowest one takes well under a second
 
 
+class _Timeout(Exception):
+    pass
+
+
+_TL_DEPTH = [0]
+
+
+class time_limit:
+    """Wall-clock limit for one comparison (SIGALRM in the main thread of the worker process; nested uses share the outermost
+    timer). A comparison that runs out of time is *undecided*, never a verdict."""
+
+    def __init__(self, seconds: float):
+        self.seconds = seconds
+        self.armed = False
+
+    def __enter__(self):
+        import signal
+        import threading
+
+        _TL_DEPTH[0] += 1
+        if _TL_DEPTH[0] == 1 and threading.current_thread() is threading.main_thread():
+            def handler(signum, frame):
+                raise _Timeout()
+
+            self.old = signal.signal(signal.SIGALRM, handler)
+            signal.setitimer(signal.ITIMER_REAL, self.seconds)
+            self.armed = True
+        return self
+
+    def __exit__(self, et, ev, tb):
+        import signal
+
+        _TL_DEPTH[0] -= 1
+        if self.armed:
+            signal.setitimer(signal.ITIMER_REAL, 0)
+            signal.signal(signal.SIGALRM, self.old)
+        return et is _Timeout and _TL_DEPTH[0] == 0
+
+
 def expand_sums(p: Poly, limit: int = 60) -> Optional[Poly]:
     """Sum atoms with a positive integer exponent multiplied out (sqrt(S) * sqrt(S) is S, not an opaque atom)."""
     for _ in range(limit):
@@ -335,7 +374,9 @@ def is_zero(p: Optional[Poly]) -> Optional[bool]:
         return None
     if not p:
         return True
-    q = clear_denominators(p)
+    q = None
+    with time_limit(3 * ZERO_TEST_BUDGET_S):
+        q = clear_denominators(p)
     if q is None:
         return None
     if not q:
@@ -450,7 +491,10 @@ def _same(a: Optional[Poly], b: Optional[Poly], depth: int = 0) -> Optional[bool
 
 def same(a: Optional[Poly], b: Optional[Poly]) -> Optional[bool]:
     """a == b as rational functions of the atoms (atoms with arguments compared by their arguments' values)."""
-    return _same(a, b, 0)
+    out: List[Optional[bool]] = [None]
+    with time_limit(5 * ZERO_TEST_BUDGET_S):
+        out[0] = _same(a, b, 0)
+    return out[0]
 
 
 def poly_of(v) -> Optional[Poly]:
@@ -842,12 +886,31 @@ def _cached(job_fn, job, repo_digest: str):
     return out
 
 
+JOB_BUDGET_S = {"quick": 300.0, "thorough": 1500.0}
+
+
+def budgeted(fn, job, digest=None):
+    """One explicit-game job under a wall-clock budget: a job that does not finish (an abstract run or a normal form that blows up
+    on code the machinery does not handle well) yields one undecided instance instead of hanging the check. Nothing is cached then."""
+    import os
+
+    tier = next((x for x in job if x in ("quick", "thorough")), "quick") if isinstance(job, tuple) else "quick"
+    rule = next((x for x in reversed(job) if isinstance(x, str) and x.startswith("R")), "R?") if isinstance(job, tuple) else "R?"
+    out = [None]
+    with time_limit(float(os.environ.get("OSV_JOB_BUDGET_S", JOB_BUDGET_S.get(tier, 300.0)))):
+        out[0] = _cached(fn, job, digest) if digest is not None else fn(job)
+    if out[0] is None:
+        return [dict(rule=rule, verdict="UNDECIDED", module="", function=getattr(fn, "__name__", "job"), construct=f"explicit-game job {job}", line=0,
+                     message="the job did not finish within its time budget (the explicit evaluation or a normal form blew up on this code)", detail={})]
+    return out[0]
+
+
 class _CachedJob:
     def __init__(self, fn, digest):
         self.fn, self.digest = fn, digest
 
     def __call__(self, job):
-        return _cached(self.fn, job, self.digest)
+        return budgeted(self.fn, job, self.digest)
 
 
 def add_instances(rep, job_fn, jobs, rule: str, floor: int, counterpart_only: bool = False) -> None:
